@@ -79,7 +79,8 @@ package c128
 //@ requires strided(dst, int(idst), int(n), int(incDst))
 //@ writes dst[int(idst)+k*int(incDst)] for k in 0..int(n)
 //@ reads x[int(ix)+k*int(incX)] for k in 0..int(n) ; y[int(iy)+k*int(incY)] for k in 0..int(n)
-//@ ensures disjoint(dst, x) && disjoint(dst, y) && int(incDst) != 0 ==> forall(k, 0, int(n), same(dst[int(idst)+k*int(incDst)], alpha*old(x[int(ix)+k*int(incX)]) + old(y[int(iy)+k*int(incY)])))
+// thorough tier only: three strided address families; 60-80 s with the (sound) loop-head havoc
+//@ ensures [thorough] disjoint(dst, x) && disjoint(dst, y) && int(incDst) != 0 ==> forall(k, 0, int(n), same(dst[int(idst)+k*int(incDst)], alpha*old(x[int(ix)+k*int(incX)]) + old(y[int(iy)+k*int(incY)])))
 
 //@ func ScalUnitaryTo props: C01(frame) C07(safety) C08
 //@ requires len(dst) >= len(x)
@@ -122,4 +123,3 @@ package c128
 //@ requires int(n) >= 0 && strided(x, 0, int(n), int(inc))
 //@ writes x[k*int(inc)] for k in 0..int(n)
 //@ reads nothing
-
